@@ -10,6 +10,7 @@ def dispatch (mode : String) : Option (List String → Verdict) :=
   match mode with
   | "C10" => some SockModel.Drive.C10.runCase
   | "C06" => some SockModel.Drive.C06.runCase
+  | "C14" => some SockModel.Drive.C14.runCase
   | "C06legacy" => some SockModel.Drive.C06.runCaseLegacy
   | _ => none
 
